@@ -491,3 +491,31 @@ pub fn known_match<'a>(known: &'a [KnownEntry], v: &Violation) -> Option<&'a Kno
             && k.where_.iter().all(|(key, val)| v.facts.get(key) == Some(val))
     })
 }
+
+// ---------------------------------------------------------------- per-cell budget
+
+/// A cell stops early (and says so in `capped`) once it has collected a dozen violations or used up its time slice;
+/// a failing subject typically makes every further case wait for a backstop, and a cell killed by the watchdog
+/// would lose the violations it had already found.
+pub struct Budget {
+    t0: Instant,
+    secs: u64,
+}
+
+impl Budget {
+    pub fn new() -> Budget {
+        let secs = std::env::var("VERIF_CELL_SECS").ok().and_then(|s| s.parse().ok()).unwrap_or(45);
+        Budget { t0: Instant::now(), secs }
+    }
+    pub fn over(&self, c: &mut Counters) -> bool {
+        if c.violations.len() >= 12 {
+            c.capped.push("cell stopped after 12 violations".into());
+            return true;
+        }
+        if self.t0.elapsed() > Duration::from_secs(self.secs) {
+            c.capped.push(format!("cell stopped after {} s", self.secs));
+            return true;
+        }
+        false
+    }
+}
